@@ -10,6 +10,7 @@ import (
 	"sort"
 	"strings"
 	"sync"
+	"time"
 
 	"github.com/xujiajun/nutsdb"
 
@@ -89,7 +90,20 @@ func RaceMain(prefix string, rounds int, seed int64) {
 				}
 			}
 			close(start)
-			wg.Wait()
+			// a free-running round takes milliseconds; one that has not finished after two minutes
+			// is blocked for good (a lock that is never released): report it and stop, the blocked
+			// goroutines cannot be cancelled
+			done := make(chan struct{})
+			go func() { wg.Wait(); close(done) }()
+			select {
+			case <-done:
+			case <-time.After(120 * time.Second):
+				buf := make([]byte, 1<<20)
+				buf = buf[:runtime.Stack(buf, true)]
+				fmt.Fprintf(os.Stderr, "\nVERIF-BLOCKED harness=%s round=%d\n%s\nVERIF-BLOCKED-END\n", n, round, buf)
+				os.RemoveAll(core.ScratchRoot)
+				os.Exit(3)
+			}
 			for _, in := range insts {
 				func() {
 					defer func() { recover() }()
@@ -163,6 +177,21 @@ func init() {
 		err := cmd.Run()
 		races := parseRaces(buf.String())
 		info := map[string]interface{}{"rounds": rounds, "goroutines": 16, "distinct_race_reports": len(races), "sampling": true}
+		if m := regexp.MustCompile(`VERIF-BLOCKED harness=(\S+) round=(\d+)`).FindStringSubmatch(buf.String()); m != nil {
+			out := buf.String()
+			dump := out[strings.Index(out, "VERIF-BLOCKED"):]
+			var frames []string
+			for _, l := range strings.Split(dump, "\n") {
+				if strings.HasPrefix(l, "github.com/xujiajun/nutsdb.") && len(frames) < 40 {
+					frames = append(frames, l)
+				}
+			}
+			a := "blocked:" + m[1]
+			r.Col.Add(eng.Violation{Prop: prop, Kind: "blocked-forever", What: a, Atoms: []string{a},
+				Detail: append([]string{"free-running pass: harness " + m[1] + " round " + m[2] + ": the threads had not finished after 120 s (a round takes milliseconds); nutsdb frames of the goroutine dump:"}, frames...),
+				Extra:  map[string]interface{}{"profile": "race"}})
+			info["blocked"] = m[1]
+		}
 		if err != nil {
 			info["error"] = err.Error()
 		}
